@@ -214,9 +214,21 @@ def cases(tier, rng):
         f[0].values[cp, 0] = -1.5 if closed else 0.5          # centre point far inside / far away: no switching on the stencil
         return fem.MultiPointContact(f, points=pts, centerpoint=cp, skip=(0, 1, 1), multiplier=4.0), f, True, False
 
+    def contact_negative(closed):
+        # rigid wall on the NEGATIVE side of the contact points (a wall left of the body)
+        m = fem.Cube(n=3)
+        m = fem.Mesh(np.vstack([m.points, [[-1.0, 0.5, 0.5]]]), m.cells, m.cell_type)
+        f = state(fem.FieldContainer([fem.Field(fem.RegionHexahedron(m), dim=3)]), rng)
+        pts = np.arange(m.npoints)[m.points[:, 0] == 0]
+        cp = m.npoints - 1
+        f[0].values[cp, 0] = 1.5 if closed else -0.5
+        return fem.MultiPointContact(f, points=pts, centerpoint=cp, skip=(0, 1, 1), multiplier=4.0), f, True, False
+
     yield "mpc", mpc
     yield "contact-closed", lambda: contact(True)
     yield "contact-open", lambda: contact(False)
+    yield "contact-negative-side-closed", lambda: contact_negative(True)
+    yield "contact-negative-side-open", lambda: contact_negative(False)
     yield "pointload", lambda: (lambda f: (fem.PointLoad(f, [1, 2], values=[[1.0, 2.0, 3.0]]), f, True, False))(hexfield())
     yield "bodyforce", lambda: (lambda f: (fem.SolidBodyForce(f, values=[1.0, 2.0, 3.0], scale=2.0), f, True, False))(hexfield())
     yield "gravity", lambda: (lambda f: (fem.SolidBodyGravity(f, gravity=[0.0, 0.0, -2.0], density=1.5), f, True, False))(hexfield())
